@@ -46,6 +46,7 @@ func isTruncatorRun(o *shaping.Output) bool {
 }
 
 var wrapSharedIter shaping.RunIterator
+var wrapCallerText = map[int][]rune{}
 
 // wrap runs the library on a fresh copy of the inputs.
 func (p *mPara) wrap(lw *shaping.LineWrapper) (res *wResult, raw [][]shaping.Output) {
@@ -71,6 +72,16 @@ func (p *mPara) wrap(lw *shaping.LineWrapper) (res *wResult, raw [][]shaping.Out
 	cfg := p.config()
 	res = &wResult{inputRuns: runs}
 	text := append([]rune(nil), c.Text...)
+	if c.Iter == 2 {
+		// the pooling caller also keeps its paragraphs in one rune buffer per length, overwritten in place for the next call
+		b := wrapCallerText[len(c.Text)]
+		if b == nil {
+			b = make([]rune, len(c.Text))
+			wrapCallerText[len(c.Text)] = b
+		}
+		copy(b, c.Text)
+		text = b
+	}
 	if c.Driver == 0 {
 		lines, tr := lw.WrapParagraph(cfg, c.Widths[0], text, it)
 		res.truncated = tr
